@@ -11,6 +11,9 @@ import (
 	enc "github.com/named-data/ndnd/std/encoding"
 )
 
+// maxStreamPacketSize bounds the TLV length accepted from a stream (the NDN maximum packet size).
+const maxStreamPacketSize = 8800
+
 type StreamFace struct {
 	network string
 	addr    string
@@ -44,6 +47,14 @@ func (f *StreamFace) Run() {
 			if err != nil {
 				break
 			}
+		}
+		if uint64(l) > maxStreamPacketSize {
+			// The length is untrusted: never size the buffer from an absurd value
+			err = f.onError(errors.New("received TLV block larger than the maximum packet size"))
+			if err != nil {
+				break
+			}
+			continue
 		}
 		l0 := t.EncodingLength()
 		l1 := l.EncodingLength()
